@@ -116,7 +116,7 @@ impl<const C: u8, const N: usize> enumerated::Constraint for Tg<C, N> {
 }
 
 /// write (W = true) or read-and-compare one tagged item
-fn tagged_item<const C: u8, const N: usize>(buf: Option<&mut Vec<u8>>, slice: Option<&mut &[u8]>, kind: u8, v: i128) -> Result<(), String> {
+fn tagged_item<const C: u8, const N: usize, R: std::io::Read>(buf: Option<&mut Vec<u8>>, slice: Option<&mut R>, kind: u8, v: i128) -> Result<(), String> {
     use asn1rs::descriptor::Boolean;
     match (buf, slice) {
         (Some(buf), _) => {
@@ -145,10 +145,10 @@ fn tagged_item<const C: u8, const N: usize>(buf: Option<&mut Vec<u8>>, slice: Op
     }
 }
 
-fn tagged_dispatch(class: u8, number: usize, buf: Option<&mut Vec<u8>>, slice: Option<&mut &[u8]>, kind: u8, v: i128) -> Result<(), String> {
+fn tagged_dispatch<R: std::io::Read>(class: u8, number: usize, buf: Option<&mut Vec<u8>>, slice: Option<&mut R>, kind: u8, v: i128) -> Result<(), String> {
     macro_rules! go {
         ($c:literal, $n:literal) => {
-            tagged_item::<$c, $n>(buf, slice, kind, v)
+            tagged_item::<$c, $n, R>(buf, slice, kind, v)
         };
     }
     match (class, number) {
@@ -211,7 +211,7 @@ fn write_item(buf: &mut Vec<u8>, it: &Item) -> Result<(), String> {
     match it {
         Item::Length(l) => buf.write_length(*l).map_err(|e| e.to_string()),
         Item::Tag(c, n) => buf.write_identifier(tag_of(*c, *n)).map_err(|e| e.to_string()),
-        Item::Tagged(c, n, k, v) => tagged_dispatch(*c, *n, Some(buf), None, *k, *v),
+        Item::Tagged(c, n, k, v) => tagged_dispatch::<&[u8]>(*c, *n, Some(buf), None, *k, *v),
         Item::Bool(b) => buf.write_boolean(*b).map_err(|e| e.to_string()),
         Item::BoolOctet(o) => {
             buf.push(*o);
@@ -247,7 +247,7 @@ fn write_item(buf: &mut Vec<u8>, it: &Item) -> Result<(), String> {
 }
 
 /// reads the item back from `slice` (advancing it); `written` = number of bytes the write produced
-fn read_item(slice: &mut &[u8], it: &Item, written: usize) -> Result<(), String> {
+fn read_item<R: std::io::Read>(slice: &mut R, it: &Item, written: usize) -> Result<(), String> {
     macro_rules! num {
         ($t:ty, $v:expr) => {{
             let mut r = DER::reader(&mut *slice);
@@ -375,7 +375,38 @@ pub fn check_items(items: &[Item]) -> Result<(), Fail> {
     if !slice.is_empty() {
         return Err(("remaining".into(), format!("{} bytes remain after reading everything back", slice.len())));
     }
+    // the same bytes through readers that deliver short reads (as a socket or a chained reader
+    // does): one octet per call, three octets per call
+    for chunk in [1usize, 3] {
+        let mut r = Chunked { data: &buf[..], pos: 0, chunk };
+        for (k, it) in items.iter().enumerate() {
+            let before = r.pos;
+            match catch(|| read_item(&mut r, it, sizes[k])) {
+                Err(p) => return Err((format!("{}:read-panic", it.name()), format!("item {k}: read through a reader delivering {chunk} octet(s) per call panicked: {p}"))),
+                Ok(Err(e)) => return Err((format!("{}:short-reads", it.name()), format!("item {k} ({:?}) through a reader delivering {chunk} octet(s) per call: {e}; bytes {}", it, hex(&buf)))),
+                Ok(Ok(())) => {}
+            }
+            if r.pos - before != sizes[k] {
+                return Err((format!("{}:consumed", it.name()), format!("item {k} ({:?}) through a reader delivering {chunk} octet(s) per call: write produced {} bytes, read consumed {}", it, sizes[k], r.pos - before)));
+            }
+        }
+    }
     Ok(())
+}
+
+/// a reader that never delivers more than `chunk` octets per call
+struct Chunked<'a> {
+    data: &'a [u8],
+    pos: usize,
+    chunk: usize,
+}
+impl std::io::Read for Chunked<'_> {
+    fn read(&mut self, out: &mut [u8]) -> std::io::Result<usize> {
+        let n = out.len().min(self.chunk).min(self.data.len() - self.pos);
+        out[..n].copy_from_slice(&self.data[self.pos..self.pos + n]);
+        self.pos += n;
+        Ok(n)
+    }
 }
 
 fn i64_family() -> Vec<i64> {
@@ -530,7 +561,7 @@ fn item_strategy() -> impl Strategy<Value = Item> {
     ]
 }
 
-const RULE: &str = "enumerated: every length in {0..300, 2^k +-2, 2^(7k) +-2, u64::MAX-2..u64::MAX}, every tag class x number 0..30, both booleans, every boolean content octet 0..255, i64/u64 boundary families through write_integer_*/read_integer_* and through BasicWriter/BasicReader with Integer<i8..u64>, Boolean, Enumerated with 1..300 items, non-extensible and extensible with half of the items behind the marker (every index), and Integer<i64> / Integer<u8> / Boolean / Enumerated whose constraint carries a tag of each of the four classes with number 0 / 7 / 30 - each alone in a buffer; generated (proptest): sequences of 2..8 such items in one buffer read back from one slice. Non-trivial: every item / sequence (distinct = hash of the item sequence).";
+const RULE: &str = "enumerated: every length in {0..300, 2^k +-2, 2^(7k) +-2, u64::MAX-2..u64::MAX}, every tag class x number 0..30, both booleans, every boolean content octet 0..255, i64/u64 boundary families through write_integer_*/read_integer_* and through BasicWriter/BasicReader with Integer<i8..u64>, Boolean, Enumerated with 1..300 items, non-extensible and extensible with half of the items behind the marker (every index), and Integer<i64> / Integer<u8> / Boolean / Enumerated whose constraint carries a tag of each of the four classes with number 0 / 7 / 30 - each alone in a buffer; generated (proptest): sequences of 2..8 such items in one buffer read back from one slice and through readers that deliver 1 / 3 octets per call. Non-trivial: every item / sequence (distinct = hash of the item sequence).";
 
 pub fn run(ctx: Ctx) -> i32 {
     let report = Report::new(ctx.clone(), RULE);
